@@ -2,6 +2,9 @@
 # replay_seeded.sh: apply every archived seeded change to /repo in turn, run the quick check of the property it breaks, undo it.
 cd /verif
 git -C /repo status --short | grep -q . && { echo "/repo not clean"; exit 2; }
+# evidence written while /repo is modified must not replace the evidence of the unchanged tree
+rm -rf /tmp/evidence.keep; cp -r /verif/evidence /tmp/evidence.keep
+trap 'rm -rf /verif/evidence; mv /tmp/evidence.keep /verif/evidence' EXIT
 for d in seeded/*/; do
   id=$(basename $d); prop=${id%%-*}
   git -C /repo apply /verif/$d/patch.diff || { echo "$id: patch does not apply"; continue; }
